@@ -29,7 +29,7 @@
 (*   trn     truncator [pc, o, k]              (holds l.mu while pc # idle)*)
 (*   cln     cleaner   [pc, snap, kept, res, ec, hasEc, b]  b = ghost: the *)
 (*           log when the clean took its snapshot                          *)
-(*   rd      readers   [alive, c, rev, pos]  pos = next offset expected    *)
+(*   rd      readers   [alive, c, rev, pos, got]  pos = next offset expected *)
 (*   ever    ghost: every record ever written                              *)
 (*   taint   ghost: tags of recorded (open) defects, set by exactly the     *)
 (*           culprit step; invariants are demanded of untainted behaviour  *)
@@ -47,7 +47,7 @@ VARIABLES cfg, segs, files, listed, active, hw, epochs, app, trn, cln, rd, ever,
 vars == <<cfg, segs, files, listed, active, hw, epochs, app, trn, cln, rd, ever, taint, obs>>
 
 Readers == {"r1", "r2"}
-NoReader == [alive |-> FALSE, c |-> FALSE, rev |-> FALSE, pos |-> 0]
+NoReader == [alive |-> FALSE, c |-> FALSE, rev |-> FALSE, pos |-> 0, got |-> FALSE]
 AppIdle == [pc |-> "idle", seg |-> 0, off |-> -1, batch |-> <<>>]
 TrnIdle == [pc |-> "idle", o |-> -1, k |-> 0]
 ClnIdle == [pc |-> "idle", snap |-> <<>>, kept |-> <<>>, res |-> <<>>, ec |-> <<>>, hasEc |-> FALSE, b |-> <<>>]
@@ -302,14 +302,15 @@ N_CrashImage == [S EXCEPT !.obs = [a |-> "CrashImage", ret |-> DiskLog, err |-> 
 \* readers (judged at property level only: what they deliver, not how)
 Visible(r) == SelectSeq(View, LAMBDA x : rd[r].c => x.off <= hw)
 G_RdNew(r, c, rev, s) == ~rd[r].alive /\ LockFree
-N_RdNew(r, c, rev, s) == [S EXCEPT !.rd = [rd EXCEPT ![r] = [alive |-> TRUE, c |-> c, rev |-> rev, pos |-> s]],
+N_RdNew(r, c, rev, s) == [S EXCEPT !.rd = [rd EXCEPT ![r] = [alive |-> TRUE, c |-> c, rev |-> rev, pos |-> s, got |-> FALSE]],
                                    !.obs = [a |-> "RdNew", ret |-> <<>>, err |-> ""]]
 G_RdNext(r) == rd[r].alive /\ LockFree
 N_RdNext(r) ==
   LET v   == Visible(r)
       I   == {i \in DOMAIN v : IF rd[r].rev THEN v[i].off <= rd[r].pos ELSE v[i].off >= rd[r].pos}
       got == IF I = {} THEN <<>> ELSE <<v[IF rd[r].rev THEN SetMax(I) ELSE SetMin(I)]>>
-  IN [S EXCEPT !.rd = [rd EXCEPT ![r].pos = IF got = <<>> THEN @ ELSE (IF rd[r].rev THEN got[1].off - 1 ELSE got[1].off + 1)],
+  IN [S EXCEPT !.rd = [rd EXCEPT ![r].pos = IF got = <<>> THEN @ ELSE (IF rd[r].rev THEN got[1].off - 1 ELSE got[1].off + 1),
+                                  ![r].got = @ \/ got # <<>>],
                !.obs = [a |-> "RdNext", ret |-> got, err |-> ""]]
 
 -----------------------------------------------------------------------------
@@ -433,7 +434,9 @@ P_RdNext(r) ==
   /\ \A i \in DOMAIN obs'.ret :
         LET x == obs'.ret[i] IN
         /\ x \in ever
-        /\ IF rd[r].rev THEN x.off <= rd[r].pos ELSE x.off >= rd[r].pos
+        \* (a committed reader created beyond the HW resumes from the HW it saw, possibly below its start:
+        \* judged under C10, see CommitLog.tla P_Drain)
+        /\ IF rd[r].rev THEN x.off <= rd[r].pos ELSE (x.off >= rd[r].pos \/ (rd[r].c /\ ~rd[r].got))
         /\ rd[r].c => x.off <= hw
   /\ ViewOf(segs', listed') = View /\ hw' = hw
 
